@@ -1,0 +1,80 @@
+//go:build verif
+// +build verif
+
+// Machine-checked contracts for this package (checked by /verif/govc). Comment-only.
+
+package bidengine
+
+//@ import mtypes "github.com/ovrclk/akash/x/market/types"
+//@ import dtypes "github.com/ovrclk/akash/x/deployment/types"
+//@ import ptypes "github.com/ovrclk/akash/x/provider/types"
+//@ import cluster "github.com/ovrclk/akash/provider/cluster"
+//@ import ctypes "github.com/ovrclk/akash/provider/cluster/types"
+//@ import broadcaster "github.com/ovrclk/akash/client/broadcaster"
+
+// ---- C13: per-order bidding loop ---------------------------------------------------
+// pipeline stage reached: 1 group query, 2 should-bid check, 3 reservation, 4 pricing, 5 bid broadcast
+//@ ghost Stage: int
+// bid broadcasts started / successful results observed / close-bid transactions submitted
+//@ ghost BidStarted: int
+//@ ghost BidOK: int
+//@ ghost CloseBidSent: int
+// successful reservation results observed / Unreserve calls made
+//@ ghost ReservedOK: int
+//@ ghost Unreserved: int
+
+//@ extern cluster.(Cluster).Unreserve(recv, order)
+//@   modifies ghost Unreserved
+//@   ensures Unreserved == old(Unreserved) + 1
+//@ extern broadcaster.(Client).Broadcast(recv, ctx, msgs)
+//@   pure
+//@ extern mtypes.(OrderID).GroupID(id)
+//@   pure
+//@ extern mtypes.(OrderID).Equals(id, other)
+//@   pure
+//@ extern mtypes.(LeaseID).GroupID(id)
+//@   pure
+//@ extern dtypes.(GroupID).Equals(id, other)
+//@   pure
+//@ extern mtypes.MakeBidID(id, provider)
+//@   pure
+//@ extern mtypes.NewMsgCreateBid(id, provider, price, deposit)
+//@   pure
+//@   ensures result != nil
+//@ extern ptypes.(*Provider).Address(p)
+//@   pure
+//@ extern dtypes.(GroupSpec).Price(g)
+//@   pure
+//@ extern ctypes.(Reservation).OrderID(recv)
+//@   pure
+
+//@ func (*order).run
+//@   requires Stage == 0 && BidStarted == 0 && BidOK == 0 && CloseBidSent == 0 && ReservedOK == 0 && Unreserved == 0 && InFlight == 0
+//@   modifies o.bidPlaced, ghost ChanKind, ghost ChanPending, ghost InFlight, ghost Stage, ghost BidStarted, ghost BidOK, ghost CloseBidSent, ghost ReservedOK, ghost Unreserved
+//@   oncall runner.Do 1 ghost Stage := 1
+//@   oncall runner.Do 3 ghost Stage := 2
+//@   oncall runner.Do 4 ghost Stage := 3
+//@   oncall runner.Do 5 ghost Stage := 4
+//@   oncall runner.Do 6 assert reservation != nil && price.Amount <= maxPrice.Amount
+//@   oncall runner.Do 6 ghost Stage := 5
+//@   oncall runner.Do 6 ghost BidStarted := BidStarted + 1
+//@   select 1 case 5 ghost ReservedOK := ReservedOK + ite(resErr(recv) == nil && implements(resVal(recv), ctypes.Reservation), 1, 0)
+//@   select 1 case 7 ghost BidOK := BidOK + ite(resErr(recv) == nil, 1, 0)
+//@   onrecv 2 ghost ReservedOK := ReservedOK + ite(resErr(recv) == nil && implements(resVal(recv), ctypes.Reservation), 1, 0)
+//@   onrecv 3 ghost BidOK := BidOK + ite(resErr(recv) == nil, 1, 0)
+//@   oncall broadcaster.(Client).Broadcast 1 ghost CloseBidSent := CloseBidSent + 1
+//@   oncall broadcaster.(Client).Broadcast 2 ghost CloseBidSent := CloseBidSent + 1
+//@   loop 1 invariant [stage] (groupch != nil || storedGroupCh != nil ==> Stage == 1) && (shouldBidCh != nil ==> Stage == 2) && (clusterch != nil ==> Stage == 3)
+//@                      && (pricech != nil ==> Stage == 4) && (bidch != nil ==> Stage == 5) && 0 <= Stage && Stage <= 5
+//@   loop 1 invariant [onebid] BidStarted == ite(Stage >= 5, 1, 0)
+//@   loop 1 invariant [reserved] ReservedOK == ite(reservation != nil, 1, 0) && (Stage >= 4 ==> reservation != nil) && (Stage <= 2 ==> reservation == nil) && (clusterch != nil ==> reservation == nil)
+//@   loop 1 invariant [group] !(groupch != nil && storedGroupCh != nil) && (storedGroupCh != nil ==> ChanKind[storedGroupCh] == 1)
+//@   loop 1 invariant [bid] (BidOK >= 1 ==> o.bidPlaced) && 0 <= BidOK && BidOK <= BidStarted && (bidch != nil ==> BidOK == 0 && !o.bidPlaced) && (Stage >= 4 && BidOK == 0 ==> !o.bidPlaced)
+//@   loop 1 invariant [query] queryBidCh != nil ==> ChanKind[queryBidCh] == 1 && (ChanPending[queryBidCh] ==> Stage == 1 && groupch == nil && bidch == nil)
+//@   loop 1 invariant [exit] Unreserved == 0 && CloseBidSent == 0 && !won
+//@   loop 1 invariant [chans] (groupch != nil ==> ChanKind[groupch] == 1) && (clusterch != nil ==> ChanKind[clusterch] == 1) && (bidch != nil ==> ChanKind[bidch] == 1) && (pricech != nil ==> ChanKind[pricech] == 1)
+//@   ensures [atmostone] BidStarted <= 1
+//@   ensures [released] !won ==> ReservedOK == Unreserved
+//@   ensures [closed] !won && BidOK >= 1 ==> CloseBidSent == 1
+
+//@ property C13 := (*order).run#*
